@@ -17,7 +17,9 @@ use std::sync::{MutexGuard, RwLockReadGuard, RwLockWriteGuard};
 ///are additive, so it is marked as non-exhaustive to remedy this.
 #[non_exhaustive]
 pub enum Borrow<'a, T: ?Sized> {
-    ///A raw immutable pointer.
+    ///A raw immutable pointer. This variant can only be constructed by RRTK itself: dereferencing
+    ///the borrow is safe, so being able to build one from an arbitrary pointer would be unsound.
+    #[non_exhaustive]
     Ptr(*const T, PhantomData<&'a ()>),
     ///An immutable borrow of an `Rc<RefCell<T>>`.
     #[cfg(feature = "alloc")]
@@ -51,7 +53,9 @@ impl<T: ?Sized> Deref for Borrow<'_, T> {
 ///are additive, so it is marked as non-exhaustive to remedy this.
 #[non_exhaustive]
 pub enum BorrowMut<'a, T: ?Sized> {
-    ///A raw mutable pointer.
+    ///A raw mutable pointer. This variant can only be constructed by RRTK itself: dereferencing
+    ///the borrow is safe, so being able to build one from an arbitrary pointer would be unsound.
+    #[non_exhaustive]
     Ptr(*mut T, PhantomData<&'a ()>),
     ///A mutable borrow of an `Rc<RefCell<T>>`.
     #[cfg(feature = "alloc")]
